@@ -1236,6 +1236,11 @@ pub fn locate(tag: &str, d: &[u8], rng: &mut Rng) -> Vec<Field> {
                 let (Some(len), Some(cov)) = (be16(d, s + 2), be16(d, s + 4)) else { break };
                 if i == want {
                     f(&mut out, "kern.sub.length", s + 2, 2, n);
+                    if len > 16 {
+                        // the last element of the subtable loses its last byte(s)
+                        let nl = (len - *rng.pick(&[1usize, 1, 2, 3])) as u16;
+                        fw(&mut out, "kern.sub.lengthMinus", s + 2, nl.to_be_bytes().to_vec(), n);
+                    }
                     f(&mut out, "kern.sub.coverage", s + 4, 2, n);
                     f(&mut out, "kern.sub.format", s + 4, 1, n);
                     if cov >> 8 == 2 {
@@ -1256,6 +1261,19 @@ pub fn locate(tag: &str, d: &[u8], rng: &mut Rng) -> Vec<Field> {
                                     2,
                                     n,
                                 );
+                                // the largest class value of this side, one byte further: the
+                                // pair of the two largest values then straddles the end of the array
+                                let vals: Vec<usize> = (0..ng.min(4096)).filter_map(|k| be16(d, c + 4 + 2 * k)).collect();
+                                if let Some((k, v)) = vals.iter().enumerate().max_by_key(|(_, v)| **v) {
+                                    let nv = (*v as u16).wrapping_add(*rng.pick(&[1u16, 1, 2]));
+                                    fw(
+                                        &mut out,
+                                        &format!("kern.fmt2.{}.maxClassPlus", name),
+                                        c + 4 + 2 * k,
+                                        nv.to_be_bytes().to_vec(),
+                                        n,
+                                    );
+                                }
                             }
                         }
                     } else {
